@@ -4,10 +4,10 @@ import itertools
 
 from ..core import rule, Ctx
 from ..index import AnalysisError, dotted, src, walk_no_nested, names_in
-from ..cfg import CFG, const_env_step, UNK
+from ..cfg import CFG, const_env_step, UNK, eval3
 from ..consteval import run_function, Unfoldable, fold, TOP
 from ..domains import linform, Lin, check_pred
-from ..util import node_calls, own_expr, pred_is, eval_local, final_assignments, last_name
+from ..util import node_calls, own_expr, pred_is, eval_local, final_assignments, last_name, explore, mk_atoms, reach_conds
 from .slots import TAPS, MOLECULE, SEQUTILS
 
 
@@ -57,40 +57,49 @@ def r2(ctx):
     tr = [t for t in f.body if isinstance(t, ast.Try)]
     if len(tr) != 1:
         raise AnalysisError('position_to_context: try block not found')
-    cfg = CFG(tr[0].body, exceptions=False)
-    table = {}
     qv = None
-    for s in f.body:
-        if isinstance(s, ast.Assign) and isinstance(s.targets[0], ast.Name) and src(s.value).endswith('.upper()') and 'observed_base' in src(s.value):
-            qv = s.targets[0].id
+    for s_ in f.body:
+        if isinstance(s_, ast.Assign) and isinstance(s_.targets[0], ast.Name) and src(s_.value).endswith('.upper()') and 'observed_base' in src(s_.value):
+            qv = s_.targets[0].id
     qv = qv or 'qbase'
-    for p, _ in cfg.paths():
-        term = cfg.nodes[p[-1][0]].info
-        eqs = {}
-        env = {'methylated': None}
-        for nid, lab in p:
-            nn = cfg.nodes[nid]
-            if nn.kind == 'test' and isinstance(nn.ast.test, ast.Compare) and len(nn.ast.test.ops) == 1 and isinstance(nn.ast.test.ops[0], ast.Eq) \
-                    and isinstance(nn.ast.test.comparators[0], ast.Constant) and isinstance(nn.ast.test.left, ast.Name):
-                eqs.setdefault(nn.ast.test.left.id, []).append((nn.ast.test.comparators[0].value, lab == 'true'))
-            if nn.kind == 'stmt':
-                env = const_env_step(env, nn)
-        ref = [v for v, pol in eqs.get('ref_base', []) if pol]
-        q = [v for v, pol in eqs.get(qv, []) if pol]
-        if term == 'raise':
-            continue
-        if ref:
-            table[(ref[0], q[0] if q else '<other>')] = env.get('methylated')
-    want = {('C', 'T'): True, ('C', 'C'): False, ('C', '<other>'): None, ('G', 'A'): True, ('G', 'G'): False, ('G', '<other>'): None}
-    ok = table == want
-    ctx.emit('C14-R2', ok, TAPS, tr[0], f'(reference base, consensus base) -> methylated: {table}' + ('' if ok else f' differs from {want}'), key='polarity',
+    # decision table: the try body is interpreted for every (reference base, consensus base) of the finite alphabets (a base outside the
+    # named ones stands for "other"); the value of `methylated` at its end is the polarity - whatever the shape of the if/elif chain
+    table = {}
+    n_eval = 0
+    for ref in ('C', 'G', 'A'):
+        for q in 'ACGTN':
+            rs = explore(tr[0].body, lambda e: UNK, env0={'ref_base': ref, qv: q, 'methylated': None})
+            n_eval += 1
+            vals = {('raise' if r['kind'] == 'raise' else r['consts'].get('methylated', UNK)) for r in rs}
+            key = (ref if ref in 'CG' else '<other>', q)
+            table[key] = vals
+    ctx.counters['abstract_cases'] += n_eval
+    bad = []
+    for (ref, q), vals in sorted(table.items()):
+        if ref == '<other>':
+            want = {'raise'}
+        elif ref == 'C':
+            want = {True} if q == 'T' else {False} if q == 'C' else {None}
+        else:
+            want = {True} if q == 'A' else {False} if q == 'G' else {None}
+        if vals != want:
+            bad.append(((ref, q), sorted(map(str, vals)), sorted(map(str, want))))
+    ok = not bad
+    ctx.emit('C14-R2', ok, TAPS, tr[0], f'(reference base, consensus base) -> methylated over {n_eval} combinations: C>T / G>A methylated, unconverted unmethylated, anything else undecided, other reference raises' if ok
+             else f'polarity differs at {bad[0][0]}: got {bad[0][1]}, expected {bad[0][2]}', key='polarity',
              what='position_to_context: methylated / unmethylated polarity is not C>T / G>A')
-    # other reference bases raise ValueError -> '.'
-    oth = [s for s in walk_no_nested(tr[0]) if isinstance(s, ast.Raise)]
-    sym = [s for s in f.body if isinstance(s, ast.If) and src(s.test) == 'methylated is None']
-    ok = len(sym) == 1 and "symbol = '.'" in src(sym[0].body[0]).replace('"', "'") and 'self.context_mapping[methylated].get(context,' in src(sym[0].orelse[0]).replace(', ', ',').replace(',', ',', 1).replace(",'.'", ",") or \
-        (len(sym) == 1 and 'self.context_mapping[methylated].get(context' in src(sym[0].orelse[0]))
-    ctx.emit('C14-R2', ok and bool(oth), TAPS, sym[0] if sym else f, 'no decision -> "."; otherwise the letter is looked up in context_mapping[methylated] with "." for unknown / truncated contexts', key='symbol-selection')
+    # no decision -> '.', otherwise the letter comes from context_mapping[methylated]
+    oth = [s_ for s_ in walk_no_nested(tr[0]) if isinstance(s_, ast.Raise)]
+    after = f.body[f.body.index(tr[0]) + 1:]
+    rets = [r_ for r_ in after if isinstance(r_, ast.Return)]
+    symv = rets[0].value.elts[1].id if rets and isinstance(rets[0].value, ast.Tuple) and len(rets[0].value.elts) == 2 and isinstance(rets[0].value.elts[1], ast.Name) else None
+    ok = symv is not None
+    if ok:
+        r_none = explore(after, mk_atoms({'methylated is None': True}), names={symv})
+        r_some = explore(after, mk_atoms({'methylated is None': False}), names={symv})
+        ok = bool(r_none) and all(symv in r['env'] and src(r['env'][symv]).replace('"', "'") == "'.'" for r in r_none) and \
+            bool(r_some) and all(symv in r['env'] and src(r['env'][symv]).replace('"', "'").replace(' ', '').startswith('self.context_mapping[methylated].get(context') for r in r_some)
+    ctx.emit('C14-R2', ok and bool(oth), TAPS, after[0] if after else f, 'no decision -> "."; otherwise the letter is looked up in context_mapping[methylated] with "." for unknown / truncated contexts', key='symbol-selection')
     hs = [h for h in tr[0].handlers if 'ValueError' in src(h.type)]
     ok = bool(hs) and any(src(x) == 'methylated = None' for x in hs[0].body)
     ctx.emit('C14-R2', ok, TAPS, hs[0] if hs else tr[0], 'coordinates outside the reference (ValueError) give no call', key='out-of-reference', nontrivial=False)
@@ -105,17 +114,14 @@ def r3(ctx):
     mod = ctx.ix.module(TAPS)
     for c in walk_no_nested(f):
         if isinstance(c, ast.Call) and isinstance(c.func, ast.Attribute) and c.func.attr == 'fetch' and len(c.args) == 3:
-            p = mod.parent.get(c)
-            arm = None
-            q = c
-            while q is not None and q is not f:
-                if isinstance(q, ast.If) and isinstance(q.test, ast.Compare) and src(q.test.left) == 'ref_base' and isinstance(q.test.comparators[0], ast.Constant):
-                    # which branch?
-                    inbody = any(any(x is c for x in ast.walk(b)) for b in q.body)
-                    if inbody:
-                        arm = q.test.comparators[0].value
-                        break
-                q = mod.parent.get(q)
+            # the reference base under which this fetch executes: the one value of {C, G} consistent with every guard on the way to it
+            conds = reach_conds(f.body, c) or []
+            arms = []
+            for ref in ('C', 'G'):
+                vals = [(eval3(t_, {'ref_base': ref}), pol) for t_, pol in conds if 'ref_base' in names_in(t_)]
+                if vals and all(v is not UNK and bool(v) == pol for v, pol in vals):
+                    arms.append(ref)
+            arm = arms[0] if len(arms) == 1 else None
             if arm:
                 # inline simple local definitions used in the arguments
                 env = {}
